@@ -4,19 +4,30 @@ import common
 
 LEAN_MODULES = ['OpusProps.C19']
 GEN = []
-SOURCES = ['src/opus.c', 'src/opus_decoder.c', 'include/opus.h', 'include/opus_defines.h', 'celt/arch.h',
+SOURCES = ['src/opus_private.h', 'src/opus.c', 'src/opus_decoder.c', 'include/opus.h', 'include/opus_defines.h', 'celt/arch.h',
            'celt/mathops.h', 'celt/float_cast.h']
 REQUIRED_THEOREMS = ['OpusProps.C19.' + t for t in (
     'degenerate_noop', 'channel_independent', 'passthrough_any_arith', 'passthrough',
-    'bounded_sign_preserved', 'bounded', 'sign_preserved', 'ramp_term_exact', 'gain_frame_condition', 'gain_ctl_range')]
-UNPROVED = ['bounded / sign_preserved in BINARY32 arithmetic: proved over every linearly ordered field (exact arithmetic, any '
+    'bounded_sign_preserved', 'bounded', 'sign_preserved', 'ramp_term_exact', 'bounded_rounded_stdmodel',
+    'gain_frame_condition', 'gain_transition_calls_gain0', 'gain_pass_event', 'gain_frame_condition_skeleton',
+    'gain_ctl_range')]
+UNPROVED = ['binary32, what IS proved (bounded_rounded_stdmodel): under the standard model of rounded arithmetic (each inner '
+            'operation exact*(1+d), |d| <= 2^-24) the excursion map with the code\'s boost stays in [0, 1] after the final '
+            'round-to-nearest, for every peak 1 < m <= 2 and every sample 0 <= x <= m; the code\'s constants satisfy the '
+            'hypothesis (boost = 4.0265 units of round-off, 4 + 16u needed). What is NOT proved: that IEEE binary32 operations '
+            'satisfy the standard model (literature; no underflow for x >= 1), and the continuation / ramp steps in rounded '
+            'arithmetic',
+            'bounded / sign_preserved in BINARY32 arithmetic: proved over every linearly ordered field (exact arithmetic, any '
             'boost 0 <= eps < 1, whole call incl. continuation, ramp and the loop over excursions), not for rounded '
             'arithmetic (Lean has no IEEE-754 error analysis); in binary32 both are searched on the implementation (S4, strict '
             'predicates) and the binary32 instantiation of the same definitions is compared bit for bit with the code',
-            'gain: that opus_decode_frame computes ret / rangeFinal / the un-scaled PCM before it reads decode_gain, and that '
-            'the recursive cross-fade calls run with the gain cleared (fix 7e7e38ec), are structural facts of the source; the '
-            'model states the frame condition of the final gain block only, the twin-decoder search (S4 gainsearch + the '
-            'mode-switching corpus) checks it end to end']
+            'gain, skeleton level: on OpusModel/DecSkel.lean (C01, read-only) with the transition call instantiated as the '
+            'code now makes it (OpusModel/GainSkel.lean withGain0) it is proved that the inner frame runs with gain 0, the '
+            'caller gets its gain back, the gain pass is one event on the frame\'s own buffer iff gain != 0, and all of C01\'s '
+            'frame results (return value audiosize, invariant, in-bounds, decode_gain unchanged) carry over. NOT proved: that '
+            'return value / final state / non-gain events are literally the same function of the inputs for gain g and gain '
+            '0 (would need a pass over every stage of the skeleton); DecSkel.transCall itself does not model the gain '
+            'clearing (C01\'s file). End to end this is searched (S4 gainsearch + mode-switching corpus)']
 RULE = ('exhaustive: degenerate argument combinations (N, C in -2..2, null pointers), every (N, C) with N <= 6, C <= 8 on three '
         'signal shapes over two consecutive frames, all ordered pairs of 25 special values (+-0, +-1, +-2, neighbours by one '
         'ulp, subnormals, huge) as 3- and 2-sample frames; OPUS_SET_GAIN accept/reject at the int16 boundary and the gain '
@@ -128,6 +139,7 @@ def search(ctx):
                         'expected': '%d calls evaluated' % len(clines), 'observed': 'exit %s, %d evaluated: %s' % (rc, len(preds), out[-300:]),
                         'why': 'the corpus run trapped or did not complete'})
         stats['corpus.softclip_calls'] = len(preds)
+    cmds.append(('boost', [h, 'boost', '0' if ctx.quick else '1']))
     cmds.insert(0, ('gaincorpus', [h, 'gaincorpus', str(CALIB['gain_factor_rel_tol'])]))
     procs = [(name, cmd, subprocess.Popen(cmd, stdout=subprocess.PIPE, stderr=subprocess.STDOUT, text=True, env=env))
              for name, cmd in cmds]
@@ -169,7 +181,8 @@ def search(ctx):
                       'flip incl. 600-sample ramps; 12 mode-switching streams alternating SILK-only / CELT-only packets on every '
                       'frame with fixed gains — the former double-gain defect), then on the real library (ASan+UBSan build), zero-initialised memory carried over consecutive frames: every '
                       'output sample in [-1, 1]; no sample changes sign, however small (strict); all-in-range input with cleared memory is returned bit for bit with '
-                      'memory 0; the C-channel call equals C single-channel calls (samples and memory, bit for bit); degenerate '
+                      'memory 0; directed sweep for |out| > 1 where the 2^-22 boost has least margin (two-sample frames {x, maxval}, maxval at '
+                      '/ below 2, just above 1, random in (1,2], x over the floats below maxval and around the vertex); the C-channel call equals C single-channel calls (samples and memory, bit for bit); degenerate '
                       'arguments touch nothing. Gain: factor vs 10^(g/5120) for all 65536 gains within the calibrated '
                       'tolerance; twin decoders with gain g / 0 on the same packets (incl. lost frames, FEC, and every third '
                       'stream alternating between packets of a SILK-only and a CELT-only encoder so that the decoder '
